@@ -136,7 +136,11 @@ fn serve_inner<
         );
     }
 
-    let last_modified = ent.last_modified();
+    // An HTTP-date can't express a time before 1970 (`fmt_http_date` panics on one); such an
+    // entity is served as last modified at the epoch.
+    let last_modified = ent
+        .last_modified()
+        .map(|m| std::cmp::max(m, SystemTime::UNIX_EPOCH));
     let etag = ent.etag();
 
     let (precondition_failed, not_modified) =
